@@ -109,6 +109,14 @@ def units(tier, seed):
                                     continue
                                 us.append({"algo": algo, "n": n, "budget": kind, "minimize": minimize, "target": target, "size": size,
                                            "step": step, "max_dev": md, "max_execs": me})
+    # fitness values just inside / just outside the 1e-4 tolerance of the target, for small and large targets
+    for target in (0.0, 100.0):
+        near = [target + 3.0, target + 5e-5, target + 5e-3, target - 2e-4, target - 9e-5]
+        for kind in kinds[1:3]:
+            for algo, size in (("rs", 1), ("1+1", 1), ("hc", 2), ("gp", 3)):
+                for minimize in (False, True):
+                    us.append({"algo": algo, "n": 6, "budget": kind, "minimize": minimize, "target": target, "size": size,
+                               "step": "default" if algo == "gp" else None, "max_dev": md, "max_execs": me, "values": near})
     return us
 
 
@@ -120,8 +128,10 @@ def run_unit(unit) -> UnitResult:
         rep = StubRepresentation(2)
         fit_log = []
 
+        values = unit.get("values") or [0.0, 1.0, 2.0]
+
         def ff(p):
-            v = float(src.randint(0, 2))
+            v = float(values[src.randint(0, len(values) - 1)])
             fit_log.append(v)
             return v
 
